@@ -1,0 +1,359 @@
+//go:build verif
+
+package slog
+
+// Contracts for property C10 (logger hierarchy). Read by /verif/bin/lvc; never compiled into a
+// normal build. See /verif/DESIGN.md.
+//
+// Isolation ("no operation on one logger ever changes the level, format, attributes, skip count or
+// writers of another") is the frame of each operation: Set* list the receiver's fields they assign;
+// the creating operations declare "keeps Entry.<field>" (unchanged for every logger that existed when
+// the operation began), with the receiver's child table as the only exception.
+
+//@ func newentry
+//@   props C10
+//@   assigns everything
+//@   keeps Entry.*, dualWriter.*, map[string]*Entry
+//@   maypanic
+//@   requires [C10.opts] forall(i, 0, len(args), implies(typeis(args[i], Opt), dyn(args[i], Opt) != nil))
+//@   loop 1 invariant s != nil && fresh(s) && (cap(todo) == 0 || fresh(todo))
+//@   loop 1 invariant implies(forall(j, 0, rangeindex+1, !typeis(args[j], Opt)), s.owner == parent)
+//@   loop 1 invariant implies(forall(j, 0, rangeindex+1, !typeis(args[j], Opt)), s.level == level)
+//@   loop 1 invariant implies(forall(j, 0, rangeindex+1, !typeis(args[j], Opt)), s.useJSON == js && s.useColor == color)
+//@   loop 1 invariant implies(forall(j, 0, rangeindex+1, !typeis(args[j], Opt)), s.writer == nil && s.items == nil && s.extraFrames == 0 && len(s.contextKeys) == 0 && len(s.attrs) == 0)
+//@   loop 1 invariant implies(rangeindex < 1, len(todo) == 0)
+//@   loop 1 invariant implies(forall(j, 0, rangeindex+1, !typeis(args[j], Opt)), implies(rangeindex >= 0 && typeis(args[0], string), s.name == dyn(args[0], string)))
+//@   ensures [C10.fresh] result != nil && fresh(result)
+//@   ensures [C10.tree] implies(old(forall(m, map[string]*Entry, forall(k, implies(has(m, k), m[k] != nil)))), forall(m, map[string]*Entry, forall(k, implies(has(m, k), m[k] != nil))))
+//@   ensures [C10.owner] implies(old(forall(i, 0, len(args), !typeis(args[i], Opt))), result.owner == parent)
+//@   ensures [C10.inherit] implies(parent != nil && old(forall(i, 0, len(args), !typeis(args[i], Opt))), result.level == old(parent.level) && result.useJSON == old(parent.useJSON) && result.useColor == old(parent.useColor))
+//@   ensures [C10.detached] implies(parent == nil && old(forall(i, 0, len(args), !typeis(args[i], Opt))), result.level == old(lvlCurrent) && result.useColor && !result.useJSON)
+//@   ensures [C10.clean] implies(old(forall(i, 0, len(args), !typeis(args[i], Opt))), result.writer == nil && result.items == nil && result.extraFrames == 0 && len(result.contextKeys) == 0 && implies(old(len(args)) <= 1, len(result.attrs) == 0))
+//@   ensures [C10.name] implies(old(forall(i, 0, len(args), !typeis(args[i], Opt)) && len(args) > 0 && typeis(args[0], string) && len(dyn(args[0], string)) > 0), result.name == old(dyn(args[0], string)))
+
+//@ func (*Entry).newChildLogger
+//@   props C10
+//@   assigns everything
+//@   maypanic
+//@   keeps Entry.name, Entry.owner, Entry.useJSON, Entry.useColor, Entry.timeLayout, Entry.modeUTC, Entry.level, Entry.attrs, Entry.writer, Entry.valueStringer, Entry.handlerOpt, Entry.extraFrames, Entry.contextKeys
+//@   keeps Entry.items except s
+//@   keeps map[string]*Entry except old(s.items)
+//@   keeps dualWriter.*
+//@   requires s != nil
+//@   requires [C10.opts] forall(i, 0, len(args), implies(typeis(args[i], Opt), dyn(args[i], Opt) != nil))
+//@   ensures [C10.child] s.items != nil && (old(s.items) == nil || s.items == old(s.items))
+//@   ensures [C10.nonnil] implies(old(forall(m, map[string]*Entry, forall(k, implies(has(m, k), m[k] != nil)))), result != nil && forall(m, map[string]*Entry, forall(k, implies(has(m, k), m[k] != nil))))
+//@   ensures [C10.lookup] implies(old(len(args) > 0 && typeis(args[0], string) && len(dyn(args[0], string)) > 0 && s.items != nil && has(s.items, dyn(args[0], string))), result == old(s.items[dyn(args[0], string)]) && forall(m, map[string]*Entry, forall(k, has(m, k) == old(has(m, k)))))
+//@   ensures [C10.create] implies(old(!(len(args) > 0 && typeis(args[0], string) && len(dyn(args[0], string)) > 0 && s.items != nil && has(s.items, dyn(args[0], string)))), fresh(result) && result != nil)
+//@   ensures [C10.registered] implies(old(len(args) > 0 && typeis(args[0], string) && len(dyn(args[0], string)) > 0), has(s.items, old(dyn(args[0], string))) && s.items[old(dyn(args[0], string))] == result)
+//@   ensures [C10.parent] implies(fresh(result) && old(len(args) == 0 || (len(args) == 1 && !typeis(args[0], Opt)) || forall(i, 0, len(args), !typeis(args[i], Opt))), result.owner == s && result.level == old(s.level) && result.useJSON == old(s.useJSON) && result.useColor == old(s.useColor) && result.writer == nil && result.items == nil && result.extraFrames == 0 && len(result.contextKeys) == 0 && implies(old(len(args)) <= 1, len(result.attrs) == 0))
+//@   ensures [C10.parent-1] implies(fresh(result) && old(len(args) == 0 || (len(args) == 1 && !typeis(args[0], Opt))), result.owner == s && result.level == old(s.level) && result.useJSON == old(s.useJSON) && result.useColor == old(s.useColor) && result.writer == nil && result.items == nil && result.extraFrames == 0 && len(result.contextKeys) == 0 && implies(old(len(args)) <= 1, len(result.attrs) == 0))
+
+//@ func (*Entry).New
+//@   props C10
+//@   assigns everything
+//@   maypanic
+//@   keeps Entry.name, Entry.owner, Entry.useJSON, Entry.useColor, Entry.timeLayout, Entry.modeUTC, Entry.level, Entry.attrs, Entry.writer, Entry.valueStringer, Entry.handlerOpt, Entry.extraFrames, Entry.contextKeys
+//@   keeps Entry.items except s
+//@   keeps map[string]*Entry except old(s.items)
+//@   keeps dualWriter.*
+//@   requires s != nil
+//@   requires [C10.opts] forall(i, 0, len(args), implies(typeis(args[i], Opt), dyn(args[i], Opt) != nil))
+//@   ensures [C10.lookup] implies(old(len(args) > 0 && typeis(args[0], string) && len(dyn(args[0], string)) > 0 && s.items != nil && has(s.items, dyn(args[0], string))), result == old(s.items[dyn(args[0], string)]))
+//@   ensures [C10.create] implies(old(!(len(args) > 0 && typeis(args[0], string) && len(dyn(args[0], string)) > 0 && s.items != nil && has(s.items, dyn(args[0], string)))), fresh(result) && result != nil)
+//@   ensures [C10.registered] implies(old(len(args) > 0 && typeis(args[0], string) && len(dyn(args[0], string)) > 0), has(s.items, old(dyn(args[0], string))) && s.items[old(dyn(args[0], string))] == result)
+//@   ensures [C10.parent] implies(fresh(result) && old(len(args) == 0 || (len(args) == 1 && !typeis(args[0], Opt)) || forall(i, 0, len(args), !typeis(args[i], Opt))), result.owner == s && result.level == old(s.level) && result.useJSON == old(s.useJSON) && result.useColor == old(s.useColor) && result.writer == nil && result.items == nil && result.extraFrames == 0)
+//@   ensures [C10.parent-1] implies(fresh(result) && old(len(args) == 0 || (len(args) == 1 && !typeis(args[0], Opt))), result.owner == s && result.level == old(s.level) && result.useJSON == old(s.useJSON) && result.useColor == old(s.useColor) && result.writer == nil && result.items == nil && result.extraFrames == 0)
+//@   at call (*Entry).newChildLogger assert [C10.forward] callee.s == s && callee.args == args
+
+// WithSkip(n) keeps one child per n: the child is looked up (or created) under the name
+// fmt.Sprintf("c/%s[%d]", s.name, n), so the same n always yields the same child (assumed: Sprintf is a
+// function of its arguments, and distinct n print differently).
+//@ func (*Entry).WithSkip
+//@   props C10
+//@   assigns everything
+//@   maypanic
+//@   keeps Entry.name, Entry.owner, Entry.useJSON, Entry.useColor, Entry.timeLayout, Entry.modeUTC, Entry.level, Entry.attrs, Entry.writer, Entry.valueStringer, Entry.handlerOpt, Entry.contextKeys
+//@   keeps Entry.items except s
+//@   keeps Entry.extraFrames except result
+//@   keeps map[string]*Entry except old(s.items)
+//@   keeps dualWriter.*
+//@   requires s != nil
+//@   requires [INV-tree] forall(m, map[string]*Entry, forall(k, implies(has(m, k), m[k] != nil)))
+//@   ensures [C10.skip] result != nil && result.extraFrames == extraFrames
+//@   ensures [C10.skip-child] implies(fresh(result), result.owner == s && result.level == old(s.level) && result.useJSON == old(s.useJSON) && result.useColor == old(s.useColor))
+//@   at call fmt.Sprintf assert [C10.skip-key] callee.format == "c/%s[%d]" && len(callee.a) == 2 && typeis(callee.a[0], string) && dyn(callee.a[0], string) == s.name && typeis(callee.a[1], int) && dyn(callee.a[1], int) == extraFrames
+//@   at call (*Entry).newChildLogger assert [C10.skip-lookup] callee.s == s && len(callee.args) == 1 && typeis(callee.args[0], string) && contentid(dyn(callee.args[0], string)) == ghost.ioFmt
+
+//@ func (*Entry).Parent
+//@   props C10
+//@   requires s != nil
+//@   ensures [C10.parent] result == s.owner
+
+//@ func (*Entry).Root
+//@   props C10
+//@   requires s != nil
+//@   ensures [C10.root] result != nil && result.owner == nil && implies(s.owner == nil, result == s)
+//@   loop 1 invariant p != nil && implies(s.owner == nil, p == s)
+
+//@ func (*Entry).Name
+//@   props C10
+//@   requires s != nil
+//@   ensures [C10.name] result == s.name
+
+//@ func newDetachedLogger
+//@   props C10
+//@   assigns everything
+//@   maypanic
+//@   keeps Entry.*, dualWriter.*, map[string]*Entry
+//@   requires [C10.opts] forall(i, 0, len(args), implies(typeis(args[i], Opt), dyn(args[i], Opt) != nil))
+//@   ensures [C10.detached] result != nil && fresh(result) && result.Entry != nil && fresh(result.Entry) && implies(old(forall(i, 0, len(args), !typeis(args[i], Opt))), result.Entry.owner == nil && result.Entry.level == old(lvlCurrent) && result.Entry.useColor && !result.Entry.useJSON && result.Entry.writer == nil && result.Entry.items == nil)
+
+//@ func New
+//@   props C10
+//@   assigns everything
+//@   maypanic
+//@   keeps Entry.*, dualWriter.*, map[string]*Entry
+//@   requires [C10.opts] forall(i, 0, len(args), implies(typeis(args[i], Opt), dyn(args[i], Opt) != nil))
+//@   ensures [C10.detached] typeis(result, *logimp) && dyn(result, *logimp) != nil && dyn(result, *logimp).Entry != nil && fresh(dyn(result, *logimp).Entry) && implies(old(forall(i, 0, len(args), !typeis(args[i], Opt))), dyn(result, *logimp).Entry.owner == nil && dyn(result, *logimp).Entry.level == old(lvlCurrent) && dyn(result, *logimp).Entry.useColor && !dyn(result, *logimp).Entry.useJSON)
+
+// Each: the local step of the traversal (one callback for the logger itself at its depth, one recursive
+// call per child at depth+1); that every logger of the subtree is visited exactly once follows by
+// structural induction over the (acyclic) child tables - a meta-argument, see DESIGN.md.
+//@ func (*Entry).Each
+//@   props C10
+//@   assigns everything
+//@   maypanic
+//@   requires s != nil && cb != nil
+//@   requires [INV-tree] forall(m, map[string]*Entry, forall(k, implies(has(m, k), m[k] != nil)))
+//@   at call (*Entry).forEachLogger assert [C10.each] callee.s == s && callee.lvl == 0
+
+//@ func (*Entry).forEachLogger
+//@   props C10
+//@   assigns everything
+//@   maypanic
+//@   keeps map[string]*Entry
+//@   requires s != nil && cb != nil
+//@   requires [INV-tree] forall(m, map[string]*Entry, forall(k, implies(has(m, k), m[k] != nil)))
+//@   ensures [C10.tree] forall(m, map[string]*Entry, forall(k, implies(has(m, k), m[k] != nil)))
+//@   loop 1 invariant forall(m, map[string]*Entry, forall(k, implies(has(m, k), m[k] != nil)))
+//@   at call (*Entry).forEachLogger assert [C10.each-child] (callee.lvl == lvl + 1 || lvl == 9223372036854775807) && callee.cb == cb
+
+// ---- generated by /verif/tools/gen_c10.py: setters and With* constructors
+
+//@ func (*Entry).SetLevel
+//@   props C10
+//@   requires s != nil
+//@   assigns s.level, ghost.debugMode
+//@   ensures [C10.set] s.level == lvl
+//@   ensures [C10.ret] result == s
+
+//@ func (*Entry).SetValueStringer
+//@   props C10
+//@   requires s != nil
+//@   assigns s.valueStringer
+//@   ensures [C10.set] s.valueStringer == vs
+//@   ensures [C10.ret] result == s
+
+//@ func (*Entry).SetSkip
+//@   props C10
+//@   requires s != nil
+//@   assigns s.extraFrames
+//@   ensures [C10.set] s.extraFrames == extraFrames
+
+//@ func (*Entry).withSkip
+//@   props C10
+//@   requires s != nil
+//@   assigns s.extraFrames
+//@   ensures [C10.set] s.extraFrames == extraFrames
+//@   ensures [C10.ret] result == s
+
+//@ func (*Entry).ResetContextKeys
+//@   props C10
+//@   requires s != nil
+//@   assigns s.contextKeys
+//@   ensures [C10.set] len(s.contextKeys) == 0
+//@   ensures [C10.ret] result == s
+
+//@ func (*Entry).SetAttrs
+//@   props C10
+//@   requires s != nil
+//@   assigns s.attrs, s.attrs[:]
+//@   ensures [C10.set] len(s.attrs) == old(len(s.attrs)) + len(attrs) && forall(j, 0, old(len(s.attrs)), s.attrs[j] == old(s.attrs[j])) && forall(j, 0, len(attrs), s.attrs[old(len(s.attrs))+j] == old(attrs[j]))
+//@   ensures [C10.ret] result == s
+
+//@ func (*Entry).SetAttrs1
+//@   props C10
+//@   requires s != nil
+//@   assigns s.attrs, s.attrs[:]
+//@   ensures [C10.set] len(s.attrs) == old(len(s.attrs)) + len(attrs) && forall(j, 0, old(len(s.attrs)), s.attrs[j] == old(s.attrs[j])) && forall(j, 0, len(attrs), s.attrs[old(len(s.attrs))+j] == old(attrs[j]))
+//@   ensures [C10.ret] result == s
+
+//@ func (*Entry).SetContextKeys
+//@   props C10
+//@   requires s != nil
+//@   assigns s.contextKeys, s.contextKeys[:]
+//@   ensures [C10.set] len(s.contextKeys) == old(len(s.contextKeys)) + len(keys) && forall(j, 0, old(len(s.contextKeys)), s.contextKeys[j] == old(s.contextKeys[j])) && forall(j, 0, len(keys), s.contextKeys[old(len(s.contextKeys))+j] == old(keys[j]))
+//@   ensures [C10.ret] result == s
+
+//@ func (*Entry).Set
+//@   props C10
+//@   requires s != nil
+//@   assigns everything
+//@   maypanic
+//@   keeps Entry.name, Entry.owner, Entry.items, Entry.useJSON, Entry.useColor, Entry.timeLayout, Entry.modeUTC, Entry.level, Entry.writer, Entry.valueStringer, Entry.handlerOpt, Entry.extraFrames, Entry.contextKeys
+//@   keeps Entry.attrs except s
+//@   keeps dualWriter.*, map[string]*Entry
+//@   ensures [C10.ret] result == s
+
+//@ func (*Entry).WithJSONMode
+//@   props C10
+//@   requires s != nil && specFmtInv(s)
+//@   assigns everything
+//@   maypanic
+//@   keeps Entry.name, Entry.owner, Entry.useJSON, Entry.useColor, Entry.timeLayout, Entry.modeUTC, Entry.level, Entry.attrs, Entry.writer, Entry.valueStringer, Entry.handlerOpt, Entry.extraFrames, Entry.contextKeys
+//@   keeps Entry.items except s
+//@   keeps map[string]*Entry except old(s.items)
+//@   keeps dualWriter.*
+//@   ensures [C10.child] result != nil && fresh(result) && result.owner == s && s.items != nil && (old(s.items) == nil || s.items == old(s.items))
+//@   ensures [C10.carry] implies(specLastBool(b, true), specFormat(result) == fmtJSON) && implies(!specLastBool(b, true), !result.useJSON && result.useColor == old(s.useColor) && !old(s.useJSON) || !result.useJSON) && result.level == old(s.level)
+
+//@ func (*Entry).WithColorMode
+//@   props C10
+//@   requires s != nil && specFmtInv(s)
+//@   assigns everything
+//@   maypanic
+//@   keeps Entry.name, Entry.owner, Entry.useJSON, Entry.useColor, Entry.timeLayout, Entry.modeUTC, Entry.level, Entry.attrs, Entry.writer, Entry.valueStringer, Entry.handlerOpt, Entry.extraFrames, Entry.contextKeys
+//@   keeps Entry.items except s
+//@   keeps map[string]*Entry except old(s.items)
+//@   keeps dualWriter.*
+//@   ensures [C10.child] result != nil && fresh(result) && result.owner == s && s.items != nil && (old(s.items) == nil || s.items == old(s.items))
+//@   ensures [C10.carry] !result.useJSON && result.useColor == specLastBool(b, true) && result.level == old(s.level)
+
+//@ func (*Entry).WithUTCMode
+//@   props C10
+//@   requires s != nil && specFmtInv(s)
+//@   assigns everything
+//@   maypanic
+//@   keeps Entry.name, Entry.owner, Entry.useJSON, Entry.useColor, Entry.timeLayout, Entry.modeUTC, Entry.level, Entry.attrs, Entry.writer, Entry.valueStringer, Entry.handlerOpt, Entry.extraFrames, Entry.contextKeys
+//@   keeps Entry.items except s
+//@   keeps map[string]*Entry except old(s.items)
+//@   keeps dualWriter.*
+//@   ensures [C10.child] result != nil && fresh(result) && result.owner == s && s.items != nil && (old(s.items) == nil || s.items == old(s.items))
+//@   ensures [C10.carry] result.modeUTC == ite(specLastBool(b, true), 2, 1) && result.useJSON == old(s.useJSON) && result.useColor == old(s.useColor) && result.level == old(s.level)
+
+//@ func (*Entry).WithTimeFormat
+//@   props C10
+//@   requires s != nil && specFmtInv(s)
+//@   assigns everything
+//@   maypanic
+//@   keeps Entry.name, Entry.owner, Entry.useJSON, Entry.useColor, Entry.timeLayout, Entry.modeUTC, Entry.level, Entry.attrs, Entry.writer, Entry.valueStringer, Entry.handlerOpt, Entry.extraFrames, Entry.contextKeys
+//@   keeps Entry.items except s
+//@   keeps map[string]*Entry except old(s.items)
+//@   keeps dualWriter.*
+//@   ensures [C10.child] result != nil && fresh(result) && result.owner == s && s.items != nil && (old(s.items) == nil || s.items == old(s.items))
+//@   ensures [C10.carry] result.useJSON == old(s.useJSON) && result.useColor == old(s.useColor) && result.level == old(s.level)
+//@   at call (*Entry).SetTimeFormat assert [C10.forward] fresh(callee.s) && callee.layout == layout
+
+//@ func (*Entry).WithLevel
+//@   props C10
+//@   requires s != nil && specFmtInv(s)
+//@   assigns everything
+//@   maypanic
+//@   keeps Entry.name, Entry.owner, Entry.useJSON, Entry.useColor, Entry.timeLayout, Entry.modeUTC, Entry.level, Entry.attrs, Entry.writer, Entry.valueStringer, Entry.handlerOpt, Entry.extraFrames, Entry.contextKeys
+//@   keeps Entry.items except s
+//@   keeps map[string]*Entry except old(s.items)
+//@   keeps dualWriter.*
+//@   ensures [C10.child] result != nil && fresh(result) && result.owner == s && s.items != nil && (old(s.items) == nil || s.items == old(s.items))
+//@   ensures [C10.carry] result.level == lvl && result.useJSON == old(s.useJSON) && result.useColor == old(s.useColor)
+
+//@ func (*Entry).WithAttrs
+//@   props C10
+//@   requires s != nil && specFmtInv(s)
+//@   assigns everything
+//@   maypanic
+//@   keeps Entry.name, Entry.owner, Entry.useJSON, Entry.useColor, Entry.timeLayout, Entry.modeUTC, Entry.level, Entry.attrs, Entry.writer, Entry.valueStringer, Entry.handlerOpt, Entry.extraFrames, Entry.contextKeys
+//@   keeps Entry.items except s
+//@   keeps map[string]*Entry except old(s.items)
+//@   keeps dualWriter.*
+//@   ensures [C10.child] result != nil && fresh(result) && result.owner == s && s.items != nil && (old(s.items) == nil || s.items == old(s.items))
+//@   ensures [C10.carry] len(result.attrs) == len(attrs) && result.useJSON == old(s.useJSON) && result.useColor == old(s.useColor) && result.level == old(s.level)
+//@   at call (*Entry).SetAttrs assert [C10.forward] fresh(callee.s) && callee.attrs == attrs
+
+//@ func (*Entry).WithAttrs1
+//@   props C10
+//@   requires s != nil && specFmtInv(s)
+//@   assigns everything
+//@   maypanic
+//@   keeps Entry.name, Entry.owner, Entry.useJSON, Entry.useColor, Entry.timeLayout, Entry.modeUTC, Entry.level, Entry.attrs, Entry.writer, Entry.valueStringer, Entry.handlerOpt, Entry.extraFrames, Entry.contextKeys
+//@   keeps Entry.items except s
+//@   keeps map[string]*Entry except old(s.items)
+//@   keeps dualWriter.*
+//@   ensures [C10.child] result != nil && fresh(result) && result.owner == s && s.items != nil && (old(s.items) == nil || s.items == old(s.items))
+//@   ensures [C10.carry] len(result.attrs) == len(attrs) && result.useJSON == old(s.useJSON) && result.useColor == old(s.useColor) && result.level == old(s.level)
+//@   at call (*Entry).SetAttrs1 assert [C10.forward] fresh(callee.s) && callee.attrs == attrs
+
+//@ func (*Entry).With
+//@   props C10
+//@   requires s != nil && specFmtInv(s)
+//@   assigns everything
+//@   maypanic
+//@   keeps Entry.name, Entry.owner, Entry.useJSON, Entry.useColor, Entry.timeLayout, Entry.modeUTC, Entry.level, Entry.attrs, Entry.writer, Entry.valueStringer, Entry.handlerOpt, Entry.extraFrames, Entry.contextKeys
+//@   keeps Entry.items except s
+//@   keeps map[string]*Entry except old(s.items)
+//@   keeps dualWriter.*
+//@   ensures [C10.child] result != nil && fresh(result) && result.owner == s && s.items != nil && (old(s.items) == nil || s.items == old(s.items))
+//@   ensures [C10.carry] result.useJSON == old(s.useJSON) && result.useColor == old(s.useColor) && result.level == old(s.level)
+//@   at call (*Entry).Set assert [C10.forward] fresh(callee.s) && callee.args == args
+
+//@ func (*Entry).WithValueStringer
+//@   props C10
+//@   requires s != nil && specFmtInv(s)
+//@   assigns everything
+//@   maypanic
+//@   keeps Entry.name, Entry.owner, Entry.useJSON, Entry.useColor, Entry.timeLayout, Entry.modeUTC, Entry.level, Entry.attrs, Entry.writer, Entry.valueStringer, Entry.handlerOpt, Entry.extraFrames, Entry.contextKeys
+//@   keeps Entry.items except s
+//@   keeps map[string]*Entry except old(s.items)
+//@   keeps dualWriter.*
+//@   ensures [C10.child] result != nil && fresh(result) && result.owner == s && s.items != nil && (old(s.items) == nil || s.items == old(s.items))
+//@   ensures [C10.carry] result.valueStringer == vs && result.useJSON == old(s.useJSON) && result.useColor == old(s.useColor) && result.level == old(s.level)
+
+//@ func (*Entry).WithContextKeys
+//@   props C10
+//@   requires s != nil && specFmtInv(s)
+//@   assigns everything
+//@   maypanic
+//@   keeps Entry.name, Entry.owner, Entry.useJSON, Entry.useColor, Entry.timeLayout, Entry.modeUTC, Entry.level, Entry.attrs, Entry.writer, Entry.valueStringer, Entry.handlerOpt, Entry.extraFrames, Entry.contextKeys
+//@   keeps Entry.items except s
+//@   keeps map[string]*Entry except old(s.items)
+//@   keeps dualWriter.*
+//@   ensures [C10.child] result != nil && fresh(result) && result.owner == s && s.items != nil && (old(s.items) == nil || s.items == old(s.items))
+//@   ensures [C10.carry] len(result.contextKeys) == len(keys) && result.useJSON == old(s.useJSON) && result.useColor == old(s.useColor) && result.level == old(s.level)
+//@   at call (*Entry).SetContextKeys assert [C10.forward] fresh(callee.s) && callee.keys == keys
+
+//@ func (*Entry).WithWriter
+//@   props C10
+//@   requires s != nil && specFmtInv(s)
+//@   assigns everything
+//@   maypanic
+//@   keeps Entry.name, Entry.owner, Entry.useJSON, Entry.useColor, Entry.timeLayout, Entry.modeUTC, Entry.level, Entry.attrs, Entry.writer, Entry.valueStringer, Entry.handlerOpt, Entry.extraFrames, Entry.contextKeys
+//@   keeps Entry.items except s
+//@   keeps map[string]*Entry except old(s.items)
+//@   keeps dualWriter.*
+//@   ensures [C10.child] result != nil && fresh(result) && result.owner == s && s.items != nil && (old(s.items) == nil || s.items == old(s.items))
+//@   ensures [C10.carry] result.writer != nil && fresh(result.writer) && result.useJSON == old(s.useJSON) && result.useColor == old(s.useColor) && result.level == old(s.level)
+//@   at call (*Entry).SetWriter assert [C10.forward] fresh(callee.s) && callee.wr == wr
+
+//@ func (*Entry).WithErrorWriter
+//@   props C10
+//@   requires s != nil && specFmtInv(s)
+//@   assigns everything
+//@   maypanic
+//@   keeps Entry.name, Entry.owner, Entry.useJSON, Entry.useColor, Entry.timeLayout, Entry.modeUTC, Entry.level, Entry.attrs, Entry.writer, Entry.valueStringer, Entry.handlerOpt, Entry.extraFrames, Entry.contextKeys
+//@   keeps Entry.items except s
+//@   keeps map[string]*Entry except old(s.items)
+//@   keeps dualWriter.*
+//@   ensures [C10.child] result != nil && fresh(result) && result.owner == s && s.items != nil && (old(s.items) == nil || s.items == old(s.items))
+//@   ensures [C10.carry] result.writer != nil && fresh(result.writer) && result.useJSON == old(s.useJSON) && result.useColor == old(s.useColor) && result.level == old(s.level)
+//@   at call (*Entry).SetErrorWriter assert [C10.forward] fresh(callee.s) && callee.wr == wr
+
